@@ -72,14 +72,17 @@ CHECKS = {
              "retry paths are judged by the oracle only."),
     "C08": dict(
         text="Universal theorems over every reachable state of a Gallina model of BitField (any history of add_field / "
-             "value assignment / assign_fields): co-present fields never overlap and stay inside the bit field, fields are "
-             "wide enough for every accepted value, value read-back, mask = union of present fields (also per tag, tags closed "
-             "under requirements), distinct complete assignments give non-intersecting key/mask pairs, explicit overlapping / "
-             "overflowing / zero-length definitions are rejected; completeness proved under the boolean guard "
-             "`exclusive_children` (includes every flat bit field) and REFUTED without it (two known findings) and for the code "
-             "as found (off-by-one scan, negative start). A verified checker (soundness proved) is evaluated in Coq on the "
-             "layout extracted from the real object after every history; exact correspondence of every return value and "
-             "exception class; independent brute-force oracle over all consistent value assignments.",
+             "__call__ / assign_fields on any number of instances sharing one tree): co-present fields never overlap and stay "
+             "inside the bit field, fields are wide enough for every accepted value, read-back and mask = union (plain, per tag, "
+             "per field; tags closed under requirements; UnknownTagError iff no present field carries the tag), distinct "
+             "complete assignments give non-intersecting key/mask pairs, overlapping / overflowing / zero-length definitions "
+             "are rejected, accepted explicit positions are never moved, refused calls/definitions leave no trace; completeness "
+             "proved under the boolean guard `exclusive_children` and REFUTED without it (two known findings) and for the code as "
+             "found. The scan bound and range test are re-extracted from bitfield.py on every run (the model is parameterised by "
+             "them) and a fail-closed ast inventory pins the shape of every modelled method, what public methods return "
+             "(copies, never internal objects) and the tag-normalisation / validate-then-record statements. Verified layout "
+             "checker evaluated in Coq on the real object; exact correspondence on histories incl. brute-forced complete "
+             "assignments; independent oracle (aliasing of caller-supplied sets/iterators, mutated return values, int identity).",
         ref="4 C08", technique="Coq proof (reachability invariant over op histories, verified layout checker) + vm_compute correspondence on histories",
         note=TB + " Auto-length float formula int(log(v,2))+1 is modelled as bit length (values < 2^47); checked never narrower by correspondence."),
     "C02": dict(
@@ -106,7 +109,9 @@ CHECKS = {
              "of every matched key for ANY ordered table and any target; ordered covering (sort, binary-search insertion index, "
              "best merge, up/down refinement, alias bookkeeping) preserves it for every table in the minimiser domain (sorted "
              "by generality or orthogonal), terminates, is never longer and meets the target or fails with the exact best size; "
-             "the try-each-method front ends (one table / many chips, None/int/dict targets). A verified validator "
+             "the try-each-method front ends (one table / many chips, None/int/dict targets, ANY caller-supplied method list; "
+             "shape of the front ends and of RoutingTableEntry.__new__ re-extracted by a fail-closed ast dump), the no_raise=False "
+             "and check_for_aliases=False clauses, and refutation witnesses showing the order / methods<>() guards necessary. A verified validator "
              "check_route_eq (cube subtraction, no key enumeration, soundness proved) is evaluated in Coq on every table the "
              "implementation returns. Exact table/alias/error correspondence; brute-force oracle over all keys.",
         ref="4 C04", technique="Coq proof (loop invariant of ordered covering; verified validator) + py2v translation + vm_compute correspondence",
@@ -130,7 +135,11 @@ CHECKS = {
              "for EVERY outcome of the random tie-breaks and spirals; longest-dimension-first walks step over the labelled link and "
              "end at the destination; link/opposite/vector tables (dumped from the live module) are mutually consistent; "
              "concentric_hexagons yields exactly the ball of radius R, duplicate-free, nearest ring first; refutation for the float "
-             "tie-break of the code as found. Correspondence with scripted random draws; independent BFS oracle on explicit graphs.",
+             "tie-break of the code as found. The arithmetic and constants inside the loop-modelled functions (torus head, approaches, "
+             "spiral, mesh component, hexagon directions/first ring/step, ldf sign/count/delta/advance) are re-translated from the "
+             "source on every run inside a fail-closed skeleton match; a partly consumed hexagon generator yields a prefix independent "
+             "of the radius; error clauses (from_vector KeyError iff null vector, zero width/height) are theorems. Containers, numpy "
+             "scalars, call histories and big numbers are decided by the BFS / lattice oracle and the correspondence only.",
         ref="4 C11", technique="Coq proof (lia/nia over lattice translates, walk induction) + py2v translation + dumped tables + vm_compute correspondence",
         note=TB + " random.random() is modelled as k/2^53 and randint by an arbitrary function meeting its contract."),
     "C16": dict(
@@ -163,9 +172,12 @@ CHECKS = {
              "per-command timeouts: exactly-once callbacks on normal return, at-most-once always, the reply handed to a command "
              "was caused by a transmission of that command under the explicit hypotheses Causal + Fresh (and a machine-checked "
              "refutation without Fresh: the 65 537-command sequence-wrap witness, the known finding), window bound on every prefix, "
-             "retransmission count and spacing, timeout raised only after exactly `tries` unanswered sends, fatal codes, "
-             "termination under an honest select, no divergence of the sequence-number loop. Exact trace equality with the real "
-             "SCPConnection on scripted fault schedules (socket/clock/select replaced from outside); independent trace oracle.",
+             "retransmission count and spacing, all transmissions of a command identical, timeout raised only after exactly "
+             "`tries` unanswered sends and with the socket drained (no delivered reply overlooked), fatal codes, termination "
+             "under an honest select, no divergence of the sequence-number loop. The clock also advances while the command "
+             "iterable and callbacks run (modelled). Statements of send_scp_burst/send_scp/seqs re-extracted from the ast each "
+             "run (fail closed) against the text the model mirrors. Exact trace equality with the real SCPConnection on "
+             "scripted fault schedules (socket/clock/select replaced from outside); independent trace oracle.",
         ref="4 C06", technique="Coq proof (small-step state machine, invariants over event lists) + dumped constants (T) + vm_compute trace correspondence",
         note=TB + " Real sockets, the OS clock and select are replaced by explicit event schedules; a wall-clock race is outside the model."),
     "C07": dict(
@@ -175,8 +187,11 @@ CHECKS = {
              "(all 16 table cases); executing the chunk commands in ANY order and with ANY repetition against the documented "
              "machine semantics returns exactly the stored bytes / leaves exactly the written bytes and changes no other byte of "
              "the machine; likewise struct fields, per-core fields, fill (both branches) and link reads/writes; the repaired receive "
-             "length always fits (refutation for the code as found). Real controller vs simulated machine under fault schedules; "
-             "every simulator reply re-checked by the Gallina machine (trace validator).",
+             "length always fits (refutation for the code as found). The struct tables are controller state replaced by boot() "
+             "(shape re-extracted each run): field addresses follow the CURRENT tables. Composition with C06's burst model: a "
+             "burst that returns completes every chunk once for every sequence-counter state (wrap included), so a read over it "
+             "is exact or raises, never other bytes. Real controller vs simulated machine under fault schedules, multi-chip / "
+             "multi-board / re-boot / context histories; every simulator reply re-checked by the Gallina machine (trace validator).",
         ref="4 C07", technique="Coq proof (tiling + order/repetition-independent execution) + py2v/ast translation + vm_compute correspondence + trace validator",
         note=TB + " SC&MP command semantics are as written in Model/Machine.v; struct.pack/unpack trusted; 'any covering order' rests on C06 under its freshness guard."),
     "C10": dict(
@@ -228,8 +243,11 @@ CHECKS = {
              "true info; the built Machine has exactly those chips, resources and links with dead chips/links as complements; the "
              "generated core reservations are non-empty, pairwise disjoint and cover exactly the non-idle cores; the whole chain "
              "from machine state to Machine + constraints; IOBUF chain walk (acyclicity hypothesis proved necessary); status "
-             "slicing. The real SCPConnection/MachineController run against a wire-level simulated machine written without rig; "
-             "correspondence on SystemInfo, Machine, constraints, statuses, IOBUF, counters; ground-truth oracle.",
+             "slicing. The controller's struct table is a parameter of the model: P2P table, system description, get_machine, status "
+             "slicing and IOBUF walk are proved for ANY struct layout (packaged file = an instance); the controller's only memory (SCP "
+             "buffer size) is a model state and call histories are proved to return what a fresh controller returns; error clauses "
+             "(no route, short payload) and the views are theorems. Real SCPConnection/MachineController (one or several controllers, "
+             "moved layouts, reboots) run against a wire-level simulated machine written without rig; correspondence + ground-truth oracle.",
         ref="4 C14", technique="Coq proof (encode/decode round trips, exactness of the derived machine model) + py2v/ast translation + vm_compute correspondence",
         note=TB + " SC&MP reply layouts as documented; read chunking/retransmission are C07/C06; a 256-wide machine cannot be encoded in the 8-bit dimension fields and is excluded."),
     "C09": dict(
@@ -256,7 +274,11 @@ CHECKS = {
              "(post-fix parent search), composition over the broken links in any order; refutation theorem for the duplicate-child "
              "defect of the code as found. Verified validators check_tree / check_connected are additionally evaluated in Coq on "
              "every real route() output; exact tree correspondence with scripted random stream and logged set orders; "
-             "independent oracle incl. a dense-fault stream.",
+             "independent oracle incl. a dense-fault stream. Also in the model: the loop over the nets of one call (route_nets: "
+             "nets routed independently, every tree valid for its own net, incl. shared / repeated / twin nets), a re-used "
+             "Machine object with in-place fault edits (run_history: every call valid for the fault sets at that call), both "
+             "compared with the implementation; their source shape is re-extracted fail-closed (ast of route()'s loop, Machine); "
+             "check_tree is evaluated in Coq on 1200-2500-hop routes.",
         ref="4 C03", technique="Coq proof (walk/tree induction on C11 geometry, A* closed-set invariant, forest invariant for repairs; verified validators) + vm_compute correspondence + validators on real outputs",
         note=TB + " Python set iteration orders are logged and fed to the model (theorems hold for every order); geometry kernels are the C11 translated units."),
 }
